@@ -173,8 +173,9 @@ def max_depth(b):
 
 
 def _depth_guess(b):
-    # upper bound: number of constructed-looking identifier octets
-    return sum(1 for o in b if o & 0x20)
+    # upper bound for input the scanner cannot frame: a nesting level needs a constructed-looking identifier
+    # octet or an indefinite-length octet (the decoders descend into `80 80 80 ...` one level per pair)
+    return sum(1 for o in b if o & 0x20) + sum(1 for o in b if o == 0x80)
 
 
 def boundaries(n):
